@@ -404,7 +404,9 @@ def _loop_scenarios(tier: str) -> list[Any]:
     globals()['C04Loop'] = C04Loop
     out = []
     edits = [[], [('status', 'a', 1)], [('annotate', 'a', 'user/note', 'x')], [('status', 'a', 1), ('label', 'a', 'l', 'v'), ('status', 'a', 2)],
-             [('addfin', 'a', 'other/fin'), ('spec', 'a', 2), ('delfin', 'a', 'other/fin')]]
+             [('addfin', 'a', 'other/fin'), ('spec', 'a', 2), ('delfin', 'a', 'other/fin')],
+             # a number replaced by the boolean Python equates it with (1 -> true), followed by inessential events
+             [('spec', 'a', True), ('status', 'a', 1), ('status', 'a', 2)], [('spec', 'a', 0), ('spec', 'a', False), ('status', 'a', 1)]]
     for bare in (False, True):
         for storage in ('annotations', 'status'):
             for sub in ((False, True) if storage == 'status' else (False,)):
